@@ -218,6 +218,14 @@ fn run_tcp(addr: std::net::SocketAddr, frames: &[Vec<u8>], expect: usize, log: &
             }
         }
         let total = u64::from_le_bytes(h[0..8].try_into().unwrap()) as usize;
+        let (q, b) = (u64::from_le_bytes(h[24..32].try_into().unwrap()), u64::from_le_bytes(h[32..40].try_into().unwrap()));
+        // a header that does not frame itself (a server that put a torn or mis-measured frame on the wire): the stream
+        // cannot be re-synchronised; record it and stop reading, the missing responses are then the verdict
+        if h[8] != 0x07 || h[9] != 0x15 || 48u64.checked_add(q).and_then(|x| x.checked_add(b)) != Some(total as u64) || total > (256 << 20) {
+            log.push(json!({"ev": "garbled", "declared": total as u64, "query_length": q, "body_length": b}));
+            idle = true;
+            break;
+        }
         let mut rest = vec![0u8; total.saturating_sub(48)];
         if s.read_exact(&mut rest).is_err() {
             idle = true;
